@@ -29,20 +29,25 @@ def build_harness():
     repo = os.path.abspath(repo_path())
     tag = hashlib.sha1(repo.encode()).hexdigest()[:8]
     target = os.path.join(HARNESS, "target-" + tag)
+    # one generated manifest per tree under check (harness/m-<tag>/Cargo.toml pointing at ../src), so that
+    # checks of different trees can run at the same time without rewriting each other's manifest
+    mdir = os.path.join(HARNESS, "m-" + tag)
+    os.makedirs(mdir, exist_ok=True)
     tmpl = open(os.path.join(HARNESS, "Cargo.toml.in")).read().replace("@REPO@", repo)
+    tmpl = tmpl.replace('path = "src/main.rs"', 'path = "../src/main.rs"')
     cur = None
     try:
-        cur = open(os.path.join(HARNESS, "Cargo.toml")).read()
+        cur = open(os.path.join(mdir, "Cargo.toml")).read()
     except FileNotFoundError:
         pass
     if cur != tmpl:
-        open(os.path.join(HARNESS, "Cargo.toml"), "w").write(tmpl)
-    lock = os.path.join(HARNESS, "Cargo.lock")
+        open(os.path.join(mdir, "Cargo.toml"), "w").write(tmpl)
+    lock = os.path.join(mdir, "Cargo.lock")
     if not os.path.exists(lock):
         import shutil
         shutil.copy(os.path.join(repo, "Cargo.lock"), lock)
     env = dict(os.environ, CARGO_NET_OFFLINE="true", CARGO_TARGET_DIR=target)
-    r = subprocess.run(["cargo", "build", "--offline", "--quiet"], cwd=HARNESS, env=env,
+    r = subprocess.run(["cargo", "build", "--offline", "--quiet"], cwd=mdir, env=env,
                        capture_output=True, text=True)
     if r.returncode != 0:
         return None, r.stderr
